@@ -90,7 +90,8 @@ class SubCheck(object):
 
     def __init__(self, name, check, strategy=None, enumerate=None, nontrivial=None, classes=None,
                  quick=1000, thorough=20000, shards_quick=1, shards_thorough=8, rule="", exhaustive=False,
-                 matchers=None, setup=None):
+                 matchers=None, setup=None, use_target=False):
+        self.use_target = use_target
         self.name = name
         self.check = check
         self.strategy = strategy
